@@ -23,7 +23,11 @@ TEXT = {
                    "attachment invariant that C04_attach_invariant proves for every reachable state; C04_not_joined proves that a session-less request is never executed.",
              note=_std_note + " Ping, signed latency and receipts are covered here only for their refusal answers; their protocols belong to C18/C19.", technique=_tech),
  'C05': dict(level="C05_delete_guard / _pose_guard / _asset_guard prove that a non-owner's request changes nothing through the core handler and every module; "
-                   "C05_owner_immutable proves that no request ever changes an entity's owner (new entities belong to the requester under a fresh id).",
+                   "C05_owner_immutable proves that no request ever changes an entity's owner (new entities belong to the requester under a fresh id). Schedule clause for ids that do not "
+                   "exist yet (Model/Premature.lean, Props/C05Premature.lean): C05_conc_refused_delete_keeps_a_fresh_attachment - for every interleaving of the owner's two steps (create the entity, "
+                   "attach to it) with the clean-up of any number of refused delete requests for that id, the attachment is there once the owner is done; "
+                   "C05_old_split_cleanup_removes_a_fresh_attachment is the interleaving of the code before the repair F46; tied by Gen/AbsOrder.cleanup_looks_up_under_the_state_lock and by the "
+                   "exploration of the real handlers (block family around the id a session issues next, oracle refused-delete-removed-an-attachment, corpus/conc/F46-*.hist).",
              note=_std_note, technique=_tech),
  'C06': dict(level="C06_entities/_components/_actions/_assets/_subscriptions/_participants/_leave_broadcast/_delete_broadcasts give the exact post-state and the exact "
                    "deliveries of leaveSession, the one function every way of leaving goes through in the model (disconnect, handler error, session switch). "
@@ -67,10 +71,10 @@ TEXT = {
                    "C16_accepted_replaces, C16_monotone (the stored timestamp never decreases), C16_asset_single (one asset per entity, fresh instance id), "
                    "C16_*_needs_entity, C16_newcomer, and C16_invariant (uniqueness of (entity,name) and of per-entity assets in every reachable state). Schedule clause (Props/C16Conc): the "
                    "comparison with the stored action and the storing are one critical section (State.SetEntityActionIfLatest), so for every order in which the critical sections of any number of "
-                   "concurrent requests run the action kept is one of those sent with no later one among them (C16_conc_keeps_latest) and its timestamp does not depend on the order "
+                   "concurrent requests run the action kept is one of those sent with no later one among them (C16_conc_keeps_latest) and the instant of its timestamp does not depend on the order "
                    "(C16_conc_kept_timestamp_order_independent); C16_old_split_keeps_the_older_action is the kernel-checked interleaving of the code before the repair F25. Tied to the code by the "
                    "lock / call / field facts of the vikja state and handler and by the exploration of the real handlers (oracle older-action-kept on the module state after the block).",
-             note=_std_note + " Timestamps are compared as (seconds, nanos) pairs, i.e. for protobuf-normalised timestamps; Go's time.Unix normalisation of out-of-range nanos is not modelled.", technique=_tech),
+             note=_std_note + " Timestamps are compared as the instants they name (Ts.instant: seconds + nanos / 1e9 with the nanoseconds normalised, the seconds saturating at the ends of the int64 range), which is what modules/vikja/state.go does since the repairs F43 and F43b.", technique=_tech),
  'C17': dict(level="C17_filter: for every list of flag strings F (all 1024 subsets and any unknown names), every history and every starting state, the run under F "
                    "reaches the same server state as the flag-free run and delivers exactly its deliveries minus the message classes F names (induction over the "
                    "history from the per-step lemma C17_step); C17_unknown_flag: names outside the ten remove nothing. Which sends each flag wraps in the source is "
